@@ -81,9 +81,16 @@ def run(ctx):
                 "Job/Project object incl. sharing of state point objects); successors only of new states",
         "exhaustive": True,
     })
+    # start from a populated state too: both jobs initialised with payload and a shallow copy each
+    _ALPHABET = dict(CLOSED, _name="closed")
+    root = (("open", "A", 0), ("doc_set", "A"), ("copy", "A", "Ac"), ("open", "B", 1), ("init", "B"))
+    st3 = engine_h.explore(ctx, _exec, max_depth=3 if ctx.quick else 4, chunk=16, root=root)
+    engine_h.fill_report(report, st3)
+    report.coverage["bounds"]["rooted_closed_depth_beyond_root"] = 3 if ctx.quick else 4
     report.assumptions += [
-        "operations through non-current handles (job removed / re-keyed / moved through an independent handle, or a "
-        "failed re-key on this handle) are undefined and not offered",
+        "a handle whose job directory disappeared through another handle (remove / re-key) is offered only its own init() "
+        "and remove(), after which it is current again; handles after a move through another handle or a failed re-key on "
+        "the handle itself are not used again",
         "observation is always through fresh Project objects plus a raw os.walk",
     ]
     return report
